@@ -11,6 +11,7 @@ use crate::fault::FaultReader;
 use gimli::{EndianSlice, Error, Reader, Result, RunTimeEndian};
 
 pub mod line;
+pub mod lists;
 pub mod small;
 
 pub fn endian_of(case: &Case) -> RunTimeEndian {
@@ -155,6 +156,7 @@ pub fn drive_family<'a, R: Reader<Offset = usize> + 'a>(
         "pub" => small::pubs(mk, case, ctx),
         "line" => line::line(mk, case, ctx),
         "macros" => line::macros(mk, case, ctx),
+        "lists" => lists::lists(mk, case, ctx),
         other => panic!("unknown family {}", other),
     }
 }
